@@ -5924,7 +5924,12 @@ class Path(Shape, MutableSequence):
                     if isinstance(move_search, Move):
                         self._segments[j].end = Point(move_search.end)
                         return
-                self._segments[j].end = Point(self._segments[0].end)
+                # No move: the subpath starts where the first segment starts.
+                first = self._segments[0]
+                if isinstance(first, Move) or first.start is None:
+                    self._segments[j].end = Point(first.end)
+                else:
+                    self._segments[j].end = Point(first.start)
                 return
 
     def _validate_move(self, index):
@@ -5948,10 +5953,14 @@ class Path(Shape, MutableSequence):
                 # The previous close already ends at the start of the subpath.
                 self._segments[index].end = Point(segment.end)
                 return
+        # If move is never found, the subpath starts where the first element starts.
+        first = self._segments[0]
+        if not isinstance(first, Move) and first.start is not None and first is not self._segments[index]:
+            self._segments[index].end = Point(first.start)
+            return
         self._segments[index].end = (
-            Point(self._segments[0].end) if self._segments[0].end is not None else None
+            Point(first.end) if first.end is not None else None
         )
-        # If move is never found, just the end point of the first element. Unless that's not a thing.
 
     def _validate_connection(self, index, prefer_second=False):
         """
@@ -6093,15 +6102,17 @@ class Path(Shape, MutableSequence):
 
         This will scan path connections and link any adjacent elements together by replacing any None points or causing
         the start position of the next element to equal the end position of the previous. This should only be needed
-        when combining paths and elements together. Close elements are always connected to the last Move element or to
-        the end position of the first element in the list. The start element of the first segment may or may not be
+        when combining paths and elements together. Close elements are always connected to the last Move element or, when
+        there is none, to the start position of the first element in the list. The start element of the first segment may or may not be
         None.
         """
         zpoint = None
         last_segment = None
         for segment in self._segments:
-            if zpoint is None or isinstance(segment, Move):
+            if isinstance(segment, Move) or (zpoint is None and segment.start is None):
                 zpoint = segment.end
+            elif zpoint is None:
+                zpoint = segment.start  # no move: the subpath starts where its first segment starts
             if last_segment is not None:
                 if segment.start is None and last_segment.end is not None:
                     segment.start = Point(last_segment.end)
@@ -6130,8 +6141,10 @@ class Path(Shape, MutableSequence):
         zpoint = None
         last_segment = None
         for segment in self._segments:
-            if zpoint is None or isinstance(segment, Move):
+            if isinstance(segment, Move) or (zpoint is None and segment.start is None):
                 zpoint = segment.end
+            elif zpoint is None:
+                zpoint = segment.start  # no move: the subpath starts where its first segment starts
             if last_segment is not None:
                 if segment.start is None:
                     return False
